@@ -106,6 +106,20 @@ def step (s : DSt) (line : String) : DSt × Option String :=
     match i with
     | .ds d => let d' := (d.append (nat! r)).1; (setInst s (.ds d') offs, some s!"pubflaky n={d'.msgs.length} last={r} perr=1")
     | _ => (s, some "pubflaky unsupported")
+  | ["streamtwice", f] =>
+    let i := (getInst s).1
+    match i, resolveOff s f with
+    | .ds _, _ => (s, some "streamtwice skip")
+    | _, none => (s, some "streamtwice skip")
+    | .mem m, some o => (s, some s!"streamtwice n={(m.stream o).length} same=1")
+    | .sql q, some o =>
+      match sqlParse o with
+      | none => (s, some "streamtwice n=0 same=1")
+      | some pos => (s, some s!"streamtwice n={(q.select pos none).length} same=1")
+  | ["appendnil"] =>
+    match (getInst s).1 with
+    | .sql _ => (s, some "appendnil err")
+    | _ => (s, some "appendnil skip")
   | ["busreplay", f] =>
     -- Replay on the instance's own bus (exists once something was published through it): everything after `from`
     let i := (getInst s).1
